@@ -138,6 +138,10 @@ func (gn *generator) gen0(depth int, c genCtx) *Expr {
 		if op == OpSeqOf && r.Intn(20) == 0 {
 			n = 0
 		}
+		if r.Intn(40) == 0 {
+			n = 6 + r.Intn(12) // a long sequence from time to time (size thresholds)
+			depth = 1
+		}
 		var kids []*Expr
 		for i := 0; i < n; i++ {
 			k := gn.gen(depth-1, cc)
@@ -149,6 +153,10 @@ func (gn *generator) gen0(depth int, c genCtx) *Expr {
 		return g.Mk(op, kids...)
 	case OpAny, OpChoice:
 		n := 1 + r.Intn(3)
+		if r.Intn(40) == 0 {
+			n = 6 + r.Intn(12) // many alternatives from time to time
+			depth = 1
+		}
 		var kids []*Expr
 		for i := 0; i < n; i++ {
 			kids = append(kids, gn.gen(depth-1, cc))
